@@ -1170,6 +1170,8 @@ struct json_object *json_tokener_parse_ex(struct json_tokener *tok, const char *
 		case json_tokener_state_array_add:
 			if (json_object_array_add(current, obj) != 0)
 			{
+				/* obj holds the only reference to the completed child */
+				json_object_put(obj);
 				tok->err = json_tokener_error_memory;
 				goto out;
 			}
@@ -1296,6 +1298,8 @@ struct json_object *json_tokener_parse_ex(struct json_tokener *tok, const char *
 		case json_tokener_state_object_value_add:
 			if (json_object_object_add(current, obj_field_name, obj) != 0)
 			{
+				/* obj holds the only reference to the completed child */
+				json_object_put(obj);
 				tok->err = json_tokener_error_memory;
 				goto out;
 			}
